@@ -138,6 +138,11 @@ func nestedUDP(depth, qsize int, how string) NestedRec {
 	mid := int32(1000)
 	for d := depth; d >= 1; d-- {
 		mid++
+		if how == "samemid" {
+			// the peer's request carries exactly the message ID the connection would use next for a message of its own:
+			// the nested request must not end up with the ID of the request whose handler is waiting for it
+			mid = int32(uint16(u.CC.VerifState().NextMID + 1))
+		}
 		tok := []byte{0xA0, byte(d)}
 		inject(memnet.Build(message.Confirmable, int(codes.GET), mid, tok, message.Options{{ID: message.URIPath, Value: []byte(fmt.Sprintf("n%d", d))}}, nil))
 		q, ok := waitOut(fmt.Sprintf("nested GET /q%d", d), func(x memnet.Dgram) bool { return x.Code == int(codes.GET) && pathOf(x) == fmt.Sprintf("/q%d", d) })
@@ -273,7 +278,7 @@ func RunNested(out string) {
 	for k := 0; k < reps; k++ {
 		for _, q := range []int{0, 1, 16} {
 			for d := 1; d <= 3; d++ {
-				for _, how := range []string{"con", "non", "blockwise"} {
+				for _, how := range []string{"con", "non", "blockwise", "samemid", "samemid", "samemid", "samemid"} {
 					w.Put(nestedUDP(d, q, how))
 				}
 				w.Put(nestedTCP(d, q))
